@@ -2,6 +2,7 @@ package rules
 
 import (
 	"go/ast"
+	"go/printer"
 	"go/token"
 	"go/types"
 	"strings"
@@ -61,6 +62,14 @@ func pureExpr(p *core.Prog, info *types.Info, e ast.Expr) bool {
 // canon renders an expression without parentheses noise.
 func canon(e ast.Expr) string {
 	return strings.ReplaceAll(core.ExprStr(ast.Unparen(e)), " ", "")
+}
+
+// canonNode renders any syntax node without white space.
+func canonNode(p *core.Prog, n ast.Node) string {
+	var sb strings.Builder
+	_ = printer.Fprint(&sb, p.Fset, n)
+	r := strings.NewReplacer(" ", "", "\n", "", "\t", "")
+	return r.Replace(sb.String())
 }
 
 // disjuncts splits a || b || c.
